@@ -438,6 +438,35 @@ def keys_script(g):
     return ops
 
 
+# ---------------- C09: expressions are checked even when no item is evaluated ----------------
+MALFORMED = ["lvl = = :one AND (", "g != :v", "g >>> :v )) AND", "g = :v AND", "(g = :v", "g = :v )", "g = :v f = :w", "g IN ()",
+             "g IN ( )", "NOT", "g BETWEEN :v AND", "m. = :v", "g = :v OR", ",", "g :v", "= :v"]
+
+
+def lazy_script(g):
+    """Query / Scan with malformed (and with well-formed) expressions on an empty table, on a table where the key
+    condition matches nothing, and on a table where items are evaluated"""
+    r = g.r
+    ops = [dict(op="add_table", client="c", table="tbl", hash="h", range="r")]
+    base = dict(client="c", table="tbl")
+    vals = {":v": S("x"), ":w": S("y"), ":one": N("1"), ":h": S("nokey")}
+    def reads():
+        out = []
+        for _ in range(r.randrange(2, 5)):
+            e = r.choice(MALFORMED) if r.random() < 0.7 else r.choice(["g = :v", "g = :v AND f = :w", "attribute_exists(g)"])
+            used = {k: v for k, v in vals.items() if k in e}
+            k = r.random()
+            if k < 0.4: out.append(dict(op="scan", filter=e, names={}, values=used, **base))
+            elif k < 0.7: out.append(dict(op="query", keycond="h = :h", filter=e, names={}, values={**used, ":h": S(r.choice(["nokey", "a"]))}, **base))
+            else: out.append(dict(op="query", keycond=e, names={}, values=used, **base))
+        return out
+    ops += reads()
+    for h in r.sample(["a", "b"], r.randrange(1, 3)):
+        ops.append(dict(op="put", item={"h": S(h), "r": S("1"), "g": S("x")}, **base))
+    ops += reads()
+    return ops
+
+
 # ---------------- C12: numbers as keys ----------------
 def numkeys_script(g):
     """number-typed hash or range keys whose numerals differ only beyond float64 precision or only in notation:
@@ -713,6 +742,8 @@ STREAMS = {
                      rule='trees of depth <=3 over all ten types with boundary members'),
     'keys': Stream('keys', 'script', scripts_from(keys_script, 'k'), view_all_but_fired,
                    rule='keys over S/N/B with separator characters, near-colliding and malformed keys'),
+    'lazy': Stream('lazy', 'script', scripts_from(lazy_script, 'lz'), view_all_but_fired,
+                   rule='malformed and well-formed expressions on Query/Scan of an empty table, of a table where the key condition matches nothing, and of a table with items'),
     'numkeys': Stream('numkeys', 'script', scripts_from(numkeys_script, 'nk'), view_all_but_fired,
                       rule='number-typed keys whose numerals differ only beyond float64 precision or only in notation'),
     'faults': Stream('faults', 'script', scripts_from(faults_script, 'e'), view_all_but_fired, nontrivial=nt_faults,
